@@ -10,12 +10,14 @@ sys.path.insert(0, os.path.dirname(os.path.abspath(__file__)))
 import common  # noqa: E402
 
 MODULES = {
+    "C02": "h_data",
     "C12": "h_path",
     "C13": "h_walk",
     "C14": "h_glob",
     "C16": "h_fileobj",
     "C17": "h_route",
     "C01": "h_fs",
+    "C03": "h_sandbox",
     "C04": "h_reflect",
     "C18": "h_reflect",
     "C05": "h_fs",
